@@ -13,7 +13,7 @@ class C02(RailsProp):
     rule = ("one run = one generated configuration (Colang 1.0 modes or Colang 2.x guardrails library; 0-3 output rails, generated or shipped) and one 1-5 turn conversation with a seeded "
             "allow/block/rewrite verdict per (rail, LLM text). non-trivial = turns in which an output rail blocked or rewrote, or turns after such a turn; "
             "distinct = distinct (config class, rail kinds, what happened in earlier turns, this turn's verdict vector)")
-    expected_probes = ["output_block", "output_rewrite", "checked_after_output-block", "checked_after_options-output-off"]
+    expected_probes = ["output_block", "output_rewrite", "checked_after_output-block", "checked_after_options-output-off", "checked_after_empty-llm-message"]
     quick_runs = 420
     thorough_runs = 30000
 
@@ -29,6 +29,12 @@ class C02(RailsProp):
                 if o != "none":
                     turn["options"] = {"output-off": {"rails": {"output": False}}, "input-off": {"rails": {"input": False}}, "log": {"log": {"activated_rails": True}},
                                        "llm-params": {"llm_params": {"temperature": 0.2}}}[o]
+        if d.chance(0.3, "empty-llm"):
+            # an LLM that returns an empty message in some turn (not the last one): nothing to gate in that turn, and the
+            # turns after it are gated like any other
+            turns = sc["convs"][0]["turns"]
+            sc["llm_empty"] = [turn["tok"] for t, turn in enumerate(turns[:-1]) if d.chance(0.5, "empty", t)]
+            sc["say_empty"] = True
         return sc
 
     def execute(self, sc):
@@ -52,7 +58,11 @@ class C02(RailsProp):
                 continue
             if "options-output-off" in e:
                 out.probe("checked_after_options-output-off")
-            RR.check_c02(sc, rec, out, cc, [k for k in e if k.startswith("output") or k.endswith("failure") or k.startswith("options")])
+            if "empty-llm-message" in e:
+                out.probe("checked_after_empty-llm-message")
+            if rec.tok in (sc.get("llm_empty") or ()):
+                e.append("empty-llm-message")
+            RR.check_c02(sc, rec, out, cc, [k for k in e if k.startswith("output") or k.endswith("failure") or k.startswith("options") or k.startswith("empty")])
             kinds = RR.turn_outcome_kinds(sc, rec)
             okinds = [k for k in kinds if k.startswith("output")]
             if okinds or e:
